@@ -3,51 +3,80 @@
 (* Trace validation of the real DataOutputX/DataInputX against DataX.      *)
 (* Events (harness/c01):                                                   *)
 (*   Reset                                   new stream                    *)
-(*   W  op v out size   one write call: value, bytes it appended, Size()   *)
-(*   Open                                    reader opened over the bytes  *)
-(*   R  ret avail       matching read: returned value, Available() after   *)
-(*   End                all elements read                                  *)
-(*   LE op in ret       little-endian helper applied to the bytes `in`     *)
+(*   W  op v [out size]  one write call: value, bytes it appended, Size()  *)
+(*                       (histories that do not look at the output between *)
+(*                       the writes carry neither: Open then carries all)  *)
+(*   Open [bytes size]   reader opened over the bytes produced so far;     *)
+(*                       bytes = ToByteArray() as a whole, size = Size()   *)
+(*   R  ret avail        matching read: returned value, Available() after  *)
+(*   Again i kept        the result of the i-th read, kept by the caller,  *)
+(*                       looked at again now (after later reads / writes)  *)
+(*   WLate op v out size a write call on the output AFTER the reader was   *)
+(*                       opened over its bytes: appended bytes, Size()     *)
+(*   End [obytes osize]  all elements read; the output as it is now        *)
+(*   LE op in ret        little-endian helper applied to the bytes `in`    *)
 (*   Static op v out back   static helpers ToBytesX(v) = out, ToX(out) = back *)
+(*   SKept op v kept     the slice an earlier ToBytesX(v) returned, now    *)
+(*   SetAt op v off before after   SetBytesX(before, off, v) = after       *)
 (*   W and LE may carry `ref`: the output of the harness's transliteration *)
 (*   of Enc/DecLE used by the pattern sweeps; it must equal the spec's.    *)
 (***************************************************************************)
-EXTENDS DataX, TraceLib
+EXTENDS DataXKeep, TraceLib
 
 VARIABLE l
-tvars == <<vars, l>>
+tvars == <<kvars, l>>
 
-TraceInit == Init /\ l = 1 /\ HwmInit
+TraceInit == KInit /\ l = 1 /\ HwmInit
 
 Step(e) == IsEv(l, e) /\ l' = l + 1
 
-TraceReset == Step("Reset") /\ buf' = <<>> /\ written' = 0 /\ prog' = <<>> /\ rpos' = 0 /\ rd' = <<>>
+TraceReset == Step("Reset") /\ buf' = <<>> /\ written' = 0 /\ prog' = <<>> /\ rpos' = 0 /\ rd' = <<>> /\ late' = <<>>
 
 TraceW == /\ Step("W")
           /\ LET e == Trace[l] IN
-               /\ W(e.op, e.v)
-               /\ e.out = Enc(e.op, e.v)        \* byte for byte the reference encoder
-               /\ e.size = written'             \* Size() = bytes produced
-               /\ (Has(e, "ref") => e.ref = Enc(e.op, e.v))   \* the sweep's transliteration agrees with the spec
+               /\ KW(e.op, e.v)
+               /\ (Has(e, "out") => e.out = SubSeq(buf', Len(buf) + 1, Len(buf')))
+                                                \* byte for byte the reference encoder (buf' = buf \o Enc(op, v))
+               /\ (Has(e, "size") => e.size = written')         \* Size() = bytes produced
+               /\ (Has(e, "ref") => e.ref = EncFor(e.op, e.v))  \* the sweep's transliteration agrees with the spec
 
-TraceOpen == Step("Open") /\ Open
+TraceOpen == /\ Step("Open") /\ KOpen
+             /\ LET e == Trace[l] IN
+                  /\ (Has(e, "bytes") => e.bytes = buf)
+                  /\ (Has(e, "size") => e.size = written)
 
 TraceR == /\ Step("R")
-          /\ R
+          /\ KR
           /\ LET e == Trace[l] IN
                /\ e.ret = rd'[Len(rd')]
                /\ e.avail = Len(buf) - (rpos' - 1)
 
+\* a kept result is the value that was read, whatever happened since
+TraceAgain == /\ Step("Again")
+              /\ LET e == Trace[l] IN
+                   /\ e.i \in 1..Len(rd)
+                   /\ e.kept = Kept(e.i)
+              /\ UNCHANGED kvars
+
+TraceWLate == /\ Step("WLate")
+              /\ LET e == Trace[l] IN
+                   /\ WLate(e.op, e.v)
+                   /\ e.out = SubSeq(late', Len(late) + 1, Len(late'))
+                   /\ e.size = written + Len(late')
+
 TraceEnd == /\ Step("End")
             /\ rpos > 0 /\ Len(rd) = Len(prog)
-            /\ UNCHANGED vars
+            /\ LET e == Trace[l] IN
+                 /\ (Has(e, "obytes") => e.obytes = OutBytes)
+                 /\ (Has(e, "osize") => e.osize = OutSize)
+            /\ UNCHANGED kvars
 
 TraceLE == /\ Step("LE")
            /\ LET e == Trace[l] IN
                 /\ Len(e.in) = LEWidth[e.op]
                 /\ e.ret = DecLE(e.op, e.in)
                 /\ (Has(e, "ref") => e.ref = DecLE(e.op, e.in))
-           /\ UNCHANGED vars
+           /\ UNCHANGED kvars
 
 \* the static helpers ToBytesX / ToX on one value: same bytes, same value back
 TraceStatic == /\ Step("Static")
@@ -57,12 +86,30 @@ TraceStatic == /\ Step("Static")
                     /\ Dec(e.op, e.out, 1).ok
                     /\ e.back = Dec(e.op, e.out, 1).v
                     /\ e.back = Canon(e.op, e.v)
-               /\ UNCHANGED vars
+               /\ UNCHANGED kvars
+
+\* the slice a static helper returned earlier is still the encoding of its value
+TraceSKept == /\ Step("SKept")
+              /\ LET e == Trace[l] IN
+                   /\ InRange(e.op, e.v)
+                   /\ e.kept = Enc(e.op, e.v)
+              /\ UNCHANGED kvars
+
+\* SetBytesX(before, off, v): the encoding at off, every other byte as it was
+TraceSetAt == /\ Step("SetAt")
+              /\ LET e == Trace[l]
+                     w == Len(Enc(e.op, e.v)) IN
+                   /\ InRange(e.op, e.v)
+                   /\ e.off >= 0 /\ e.off + w <= Len(e.before)
+                   /\ e.after = [i \in 1..Len(e.before) |->
+                                   IF i > e.off /\ i <= e.off + w THEN Enc(e.op, e.v)[i - e.off] ELSE e.before[i]]
+              /\ UNCHANGED kvars
 
 \* every invariant of DataX is re-evaluated on the state after each event
 InvAll == SizeOK /\ ReadBack /\ ExactConsumption /\ NoStuck
 
-TraceNext == (TraceReset \/ TraceW \/ TraceOpen \/ TraceR \/ TraceEnd \/ TraceLE \/ TraceStatic) /\ InvAll'
+TraceNext == (TraceReset \/ TraceW \/ TraceOpen \/ TraceR \/ TraceAgain \/ TraceWLate \/ TraceEnd
+                \/ TraceLE \/ TraceStatic \/ TraceSKept \/ TraceSetAt) /\ InvAll'
 
 TraceSpec == TraceInit /\ [][TraceNext]_tvars
 
